@@ -78,7 +78,12 @@ class WCCN(TransformerMixin, BaseEstimator):
 
         # 3. Compute inv
         scaled_Sw = (1 / n_classes) * Sw
-        inv_scaled_Sw = pinv(scaled_Sw) if self.pinv else inv(scaled_Sw)
+        # scipy's pinv returns a numpy array: convert back for the dask cholesky
+        inv_scaled_Sw = (
+            numerical_module.asarray(pinv(scaled_Sw))
+            if self.pinv
+            else inv(scaled_Sw)
+        )
 
         # 3. Computes the Cholesky decomposition
         self.weights = cholesky(
